@@ -134,7 +134,7 @@ void op_keygen(const Case& c, TaskCtx& t, Outcome& o) {
       return;
   }
   if (rc != 0)
-    CHECK_FAIL("C07.keygen_failed", std::string(p.name) + " surf" + std::to_string(surf) + ": keygen failed with a working entropy source");
+    FAIL_STOP("C07.keygen_failed", std::string(p.name) + " surf" + std::to_string(surf) + ": keygen failed with a working entropy source");
   // layout
   if (skser[0] != param || pkser[0] != param)
     CHECK_FAIL("C07.wrong_parameter_byte", "key carries parameter byte " + std::to_string(skser[0]) + "/" + std::to_string(pkser[0]));
@@ -207,7 +207,7 @@ void op_lowmc(const Case& c, TaskCtx& t, Outcome& o) {
     t.stats->tuple(std::string("lowmc-") + std::to_string(p.n) + "-" + std::to_string(p.r) + "|" + family_tag(c) + "|surf" + std::to_string(surf) + "|" + c.s("kpat", "rand"));
   }
   if (rc != 0)
-    CHECK_FAIL("C10.sk_to_pk_failed", std::string(p.name) + ": sk_to_pk returned " + std::to_string(rc));
+    FAIL_STOP("C10.sk_to_pk_failed", std::string(p.name) + ": sk_to_pk returned " + std::to_string(rc));
   if (C != k.C)
     CHECK_FAIL("C10.ciphertext_differs_from_specification",
                         std::string("LowMC ") + std::to_string(p.n) + "/" + std::to_string(p.r) + " via " + p.name + " on " + family_tag(c) + " surf" + std::to_string(surf) + " key pattern " +
@@ -421,7 +421,7 @@ void op_sizes(const Case& c, TaskCtx& t, Outcome& o) {
   }
   const model::Params& p = *pp;
   if (ss == 0 || sks == 0 || pks == 0)
-    CHECK_FAIL("C11.enabled_parameter_refused", what + " (" + p.name + "): a size query returned 0");
+    FAIL_STOP("C11.enabled_parameter_refused", what + " (" + p.name + "): a size query returned 0");
   if (sks != (size_t)1 + 3 * p.ios || pks != (size_t)1 + 2 * p.ios)
     CHECK_FAIL("C11.key_size_query", std::string(p.name) + ": key sizes " + std::to_string(sks) + "/" + std::to_string(pks) + " differ from 1+3b / 1+2b");
   if (sks != tc_sk_size_macro[pb] || pks != tc_pk_size_macro[pb] || tc_block_size_macro[pb] != (unsigned long)p.ios)
@@ -502,7 +502,7 @@ void op_nist(const Case& c, TaskCtx& t, Outcome& o) {
     o.summary = "rc=" + std::to_string(rcs[0]) + "/" + std::to_string(rcs[1]) + "/" + std::to_string(rcs[2]);
     for (int s = 0; s < 3; s++)
       if (rcs[s] != -99 && rcs[s] != 0)
-        CHECK_FAIL("C16.keypair_failed", std::string(p.name) + ": key generation failed on surface " + std::to_string(s));
+        FAIL_STOP("C16.keypair_failed", std::string(p.name) + ": key generation failed on surface " + std::to_string(s));
     for (int s = 1; s < 3; s++)
       if (rcs[s] != -99 && keys[s] != keys[0])
         CHECK_FAIL("C16.keys_differ_between_surfaces", std::string(p.name) + ": the same entropy gives different keys through surface " + std::to_string(s) +
@@ -512,7 +512,7 @@ void op_nist(const Case& c, TaskCtx& t, Outcome& o) {
   // honest generic signature as reference
   bytes gsig;
   if (!honest_signature(k, msg, gsig))
-    CHECK_FAIL("C01.sign_failed", std::string(p.name) + ": generic signing failed");
+    FAIL_STOP("C01.sign_failed", std::string(p.name) + ": generic signing failed");
   size_t mx = picnic_signature_size(param);
   if (sub == "sign") {
     std::string ov = c.s("overlap", "disjoint");
@@ -541,7 +541,7 @@ void op_nist(const Case& c, TaskCtx& t, Outcome& o) {
     if (t.stats)
       t.stats->tuple(std::string(p.name) + "|nist_sign|" + ov + "|" + (rc == 0 ? "ok" : "err"));
     if (rc != 0)
-      CHECK_FAIL("C16.nist_sign_failed", std::string(p.name) + ": crypto_sign returned " + std::to_string(rc));
+      FAIL_STOP("C16.nist_sign_failed", std::string(p.name) + ": crypto_sign returned " + std::to_string(rc));
     if (smlen != 4 + msg.size() + gsig.size())
       CHECK_FAIL("C16.signed_message_length", std::string(p.name) + ": smlen " + std::to_string(smlen) + " != 4 + mlen + siglen = " + std::to_string(4 + msg.size() + gsig.size()));
     uint32_t pre = sm.p[0] | (sm.p[1] << 8) | (sm.p[2] << 16) | ((uint32_t)sm.p[3] << 24);
@@ -691,7 +691,7 @@ void op_nist(const Case& c, TaskCtx& t, Outcome& o) {
       CHECK_FAIL("C05.const_input_modified", std::string(p.name) + ": crypto_sign_open modified its const signed message");
     if (intact) {
       if (rc != 0)
-        CHECK_FAIL("C16.open_rejected_valid", std::string(p.name) + ": crypto_sign_open rejected an intact signed message (overlap=" + ov + ", mlen=" + std::to_string(msg.size()) + ")");
+        FAIL_STOP("C16.open_rejected_valid", std::string(p.name) + ": crypto_sign_open rejected an intact signed message (overlap=" + ov + ", mlen=" + std::to_string(msg.size()) + ")");
       if (mlen != msg.size() || memcmp(mp, msg.data(), msg.size()) != 0)
         CHECK_FAIL("C16.opened_message_wrong", std::string(p.name) + ": opened message/length wrong (overlap=" + ov + ", mlen " + std::to_string(mlen) + " vs " + std::to_string(msg.size()) + ")");
     } else if (rc == 0)
